@@ -31,6 +31,7 @@ from __future__ import absolute_import
 import re
 import socket
 from base64 import b64encode
+from http.client import HTTPException
 from urllib import parse as urlparse
 
 import gevent
@@ -63,11 +64,26 @@ class HttpRelayClient(RelayPoolClient):
         result, envelope = self.poll()
         if result and envelope:
             self.idle = False
-            self._handle_request(result, envelope)
+            try:
+                self._handle_request(result, envelope)
+            except BaseException as exc:
+                self._fail_request(result, exc)
+                raise
         else:
             if self.conn:
                 self.conn.close()
                 self.conn = None
+
+    def _fail_request(self, result, exc):
+        # Whatever ends this client, the caller waiting on the request must
+        # be told: timeouts and connection failures are transient.
+        if result.ready():
+            return
+        if isinstance(exc, (gevent.Timeout, socket.error, HTTPException)):
+            msg = str(exc) or type(exc).__name__
+            reply = Reply('451', '4.4.0 '+msg)
+            exc = TransientRelayError(msg, reply)
+        result.set_exception(exc)
 
     def _b64encode(self, what):
         return b64encode(what.encode('utf-8')).decode('ascii')
